@@ -201,6 +201,8 @@ fn build(d: &mut Dice) -> ListCase {
 struct TruthArg {
     alias: Option<syn::Ident>,
     expr: syn::Expr,
+    /// the expression's tokens as written (syn's printer is exponential on some deeply nested inputs the fuzzer finds)
+    tokens: TokenStream,
 }
 impl Parse for TruthArg {
     fn parse(input: ParseStream) -> syn::Result<Self> {
@@ -211,7 +213,17 @@ impl Parse for TruthArg {
         } else {
             None
         };
-        Ok(TruthArg { alias, expr: input.parse()? })
+        let begin = input.cursor();
+        let expr: syn::Expr = input.parse()?;
+        let end = input.cursor();
+        let mut tokens = TokenStream::new();
+        let mut c = begin;
+        while c != end {
+            let Some((tt, next)) = c.token_tree() else { break };
+            tokens.extend(std::iter::once(tt));
+            c = next;
+        }
+        Ok(TruthArg { alias, expr, tokens })
     }
 }
 
@@ -255,7 +267,7 @@ fn check_list(text: &str) -> Verdict {
     };
     let t_elems: Vec<(Option<String>, Vec<String>, bool)> = truth
         .iter()
-        .map(|a| (a.alias.as_ref().map(|i| i.to_string()), tok::flat_vec(&quote::ToTokens::to_token_stream(&a.expr)), is_single_ident(&a.expr)))
+        .map(|a| (a.alias.as_ref().map(|i| i.to_string()), tok::flat_vec(&a.tokens), is_single_ident(&a.expr)))
         .collect();
     let dmr = dm::guarded(|| Punctuated::<DmArg, Token![,]>::parse_terminated.parse2(ts.clone()));
     let dmv = match dmr {
@@ -637,15 +649,35 @@ pub fn run(ctx: &Ctx) -> Report {
             Ok(c) => {
                 rep.evidence.set("fuzz_expr_split_executions", json!(c.runs));
                 rep.evidence.eval(c.runs);
-                for bytes in c.crashes {
+                let mut slow = 0u64;
+                for (bytes, kind) in c.crashes.into_iter().zip(c.kinds) {
                     let text = fuzz_decode(&bytes);
-                    if let Some((what, e, o, sig)) = check_text(&text) {
+                    // (a `timeout-` artifact: the reference side — syn parsing / printing a pathologically nested input —
+                    // may be what is slow; re-evaluate under a watchdog and drop the input if the oracle cannot decide)
+                    let t2 = text.clone();
+                    let (tx, rx) = std::sync::mpsc::channel();
+                    std::thread::spawn(move || {
+                        let _ = tx.send(check_text(&t2));
+                    });
+                    let verdict = match rx.recv_timeout(std::time::Duration::from_secs(60)) {
+                        Ok(v) => v,
+                        Err(_) => {
+                            slow += 1;
+                            continue;
+                        }
+                    };
+                    if kind != "crash" && verdict.is_none() {
+                        slow += 1;
+                        continue;
+                    }
+                    if let Some((what, e, o, sig)) = verdict {
                         let sig = resolve_sig(ctx, sig);
                         rep.violations.push(Violation { sig, summary: format!("{what}: `{text}` (found by fuzzing)"), case: json!({"list": text}), expected: e, observed: o });
                     } else {
                         rep.infra_errors.push(format!("fuzz target expr_split crashed on an input the in-process oracle accepts: `{text}`"));
                     }
                 }
+                rep.evidence.set("fuzz_inputs_dropped_because_the_reference_parser_is_slow_on_them", json!(slow));
             }
             Err(e) => rep.infra_errors.push(format!("fuzz campaign expr_split: {e}")),
         }
